@@ -288,7 +288,8 @@ class Gen:
         if self.doc_casts and self.profile == "dynamic" and t in VARIANT_KINDS and self.vf_objects():
             common = common + ["varcast"]
         if t == BOOL:
-            return common + ["not", "and", "or", "cmp", "cmp", "cmp", "bbit", "isempty", "ptrcmp", "constcmp"]
+            return common + ["not", "and", "or", "cmp", "cmp", "cmp", "bbit", "isempty", "ptrcmp", "constcmp"] + \
+                (["shiftsign"] if self.doc_casts and self.profile == "dynamic" else [])
         if t == INT:
             return common + ["arith", "arith", "arith", "bit", "shift", "neg", "minmax", "cast", "method", "constfold", "constfold"]
         if t == UINT:
@@ -414,6 +415,21 @@ class Gen:
             b = self.expr(rng.choice((INT, UINT)) if self.profile != "constant" else INT, depth + 1)
         self.feat("shift:%s:%s" % (op, t))
         return N("bin", t, (a, b), v=op, const=a.const and b.const)
+
+    def p_shiftsign(self, t, depth):
+        """An integer literal shifted by a run-time uint amount stays an int: the sign of what follows shows it."""
+        rng = self.rng
+        u = self.prop_read(UINT, depth + 1)
+        if u is None:
+            return None
+        if rng.random() < 0.5:
+            sh = N("bin", INT, (self.int_lit(rng.choice((1, 1, 2, 3))), u), v="<<")
+            e = N("bin", INT, (sh, self.int_lit(rng.choice((2, 5, 9)))), v="-")
+        else:
+            sh = N("bin", INT, (self.int_lit(rng.choice((-16, -1, -256))), u), v=">>")
+            e = N("bin", INT, (sh, self.int_lit(2)), v=rng.choice(("/", "%", "-")))
+        self.feat("shift:literal-by-uint")
+        return mk_cmp(rng.choice(("<", ">=", "<=")), e, self.int_lit(0))
 
     def p_neg(self, t, depth):
         op = self.rng.choice(("-", "-", "+"))
@@ -648,6 +664,34 @@ class Gen:
                 res = N("tern", t, (mk_cmp("==", xl, y), xl, y))
             else:
                 stmts.append(N("let", VOID, (mk_cmp("!=", xl, y),), v=(self.fresh(), BOOL, True, False)))
+                self.locals[-1]["v%d" % self.nlocal] = (BOOL, True)
+                return N("prog", t, (stmts + self.tail(t, "block", 0),))
+            return N("prog", t, (stmts + [N("return", t, (res,))],))
+        if kind == "const-alias":
+            # a const initialised from a bare variable is a copy: re-assigning the variable afterwards must not show through it
+            pt = t if t in (INT, STR, BOOL, DOUBLE, UINT, SLIST) else INT
+            a, k = self.fresh(), self.fresh()
+            stmts = [N("let", VOID, (self.expr(pt, 2),), v=(a, pt, False, False))]
+            self.locals[-1][a] = (pt, False)
+            stmts.append(N("let", VOID, (N("local", pt, v=a),), v=(k, pt, True, rng.random() < 0.3 and (pt != SLIST or self.annotate_stringlist))))
+            if pt == SLIST and rng.random() < 0.6:
+                stmts.append(N("setelem", VOID, (N("lit", INT, v=(0, "0"), const=True), self.expr(STR, 2)), v=a))
+            else:
+                stmts.append(N("assign", VOID, (self.expr(pt, 2),), v=a))
+            self.locals[-1][k] = (pt, True)
+            al, kl = N("local", pt, v=a), N("local", pt, v=k)
+            if t == BOOL and pt == BOOL:
+                res = N("bin", BOOL, (kl, al), v="^")
+            elif t == BOOL:
+                res = mk_cmp("==", kl, al)
+            elif t == pt and pt in (INT, UINT, DOUBLE):
+                res = N("bin", pt, (N("minmax", pt, (kl, al), v="max"), N("minmax", pt, (kl, al), v="min")), v="-")
+            elif t == pt and pt == STR:
+                res = N("bin", STR, (N("bin", STR, (kl, N("lit", STR, v=("|", '"|"'), const=True)), v="+"), al), v="+")
+            elif t == pt and pt == SLIST:
+                res = N("tern", SLIST, (mk_cmp("==", kl, al), al, kl)) if False else kl
+            else:
+                stmts.append(N("let", VOID, (mk_cmp("!=", kl, al),), v=(self.fresh(), BOOL, True, False)))
                 self.locals[-1]["v%d" % self.nlocal] = (BOOL, True)
                 return N("prog", t, (stmts + self.tail(t, "block", 0),))
             return N("prog", t, (stmts + [N("return", t, (res,))],))
